@@ -378,7 +378,18 @@ pub fn explore_closure<O: PosOracle>(run: &Arc<Run>, oracle: &Arc<O>, seeds: &[R
 }
 fn run_checker<O: PosOracle>(model: PosGraph<O>, dfs: bool) -> ExploreStats {
     let threads = std::thread::available_parallelism().map(|n| n.get()).unwrap_or(8);
-    let b = model.checker().threads(threads);
+    // the wall-clock budget also bounds a single exploration: stateright stops handing out work
+    // when the timeout passes (reported as a cap by the caller via run.over_budget())
+    let remaining = (model.run.budget_s - model.run.elapsed()).max(10.0);
+    let run = model.run.clone();
+    let b = model.checker().threads(threads).timeout(std::time::Duration::from_secs_f64(remaining));
+    let r = run_checker_inner(b, dfs);
+    if run.elapsed() > run.budget_s {
+        run.cap("an exploration was stopped by the wall-clock budget before its state space was exhausted; the states judged until then are counted".to_string());
+    }
+    r
+}
+fn run_checker_inner<O: PosOracle>(b: stateright::CheckerBuilder<PosGraph<O>>, dfs: bool) -> ExploreStats {
     if dfs {
         let c = b.spawn_dfs().join();
         ExploreStats { unique: c.unique_state_count() as u64, generated: c.state_count() as u64, max_depth: c.max_depth() as u64 }
